@@ -235,7 +235,7 @@ def run(ctx, hook_cls=C02Hook, prop='C02', drv='drv_c02'):
     n_hist = ctx.n(10, 150)
     n_tx = ctx.n(30, 40)
     for ci, c in enumerate(load_corpus(prop)):
-        w, history, infos = run_history(ctx, c.get('mdib', MDIBS[0]), ctx.subrng('corpus', ci), 0, [hook_cls(ctx)], scripts=c['history'])
+        w, history, infos = run_history(ctx, MDIBS[c.get('mdib_index', 0)], ctx.subrng('corpus', ci), 0, [hook_cls(ctx)], scripts=c['history'])
         compare_model(ctx, w, history, drv)
         ctx.count('corpus-cases')
     for hi in range(n_hist):
